@@ -4,7 +4,8 @@
 formulas* (person and group, dated and eternal) whose reads are known, so this module has its own
 small description (text forms: lean/OFCore/OFCore/Drv/Heap.lean):
 
-    system  = list of (entity, unit, default, formula, vtype, blacklisted)   entity 0 = person, k >= 1 = group g<k>
+    system  = list of (entity, unit, default, formula, vtype, flags)   entity 0 = person, k >= 1 = group g<k>;
+              flags: "!" = in the cache blacklist, "^" = set_input = set_input_dispatch_by_period
     formula = None | (const, [(coef, dep, via, pt), ...])   via: s = population(dep, p)
                                                                   m = group.sum(group.members(dep, p))
                                                                   p = person.<group of dep>(dep, p)
@@ -98,6 +99,11 @@ def parse_via(v):
         return (v[:2], parse_role(v[2:]))
     if v.startswith("nt"):
         return ("nt", _nat(v[2:]))
+    if v.startswith("eq"):
+        k = _nat(v[2:])
+        if k >= ENUM_SIZE:
+            raise Malformed(v)
+        return ("eq", k)
     if v.startswith("hr"):
         g, _, r = v[2:].partition("_")
         return ("hr", _nat(g), parse_role(r))
@@ -119,9 +125,11 @@ def parse_sys(s):
         if len(f) != 4:
             raise Malformed(v)
         u = f[1]
-        black = u.endswith("!")
+        black = "!" if u.endswith("!") else ""        # flags: "!" = in the cache blacklist, "^" = set_input_dispatch_by_period
         if black:
             u = u[:-1]
+        if u.endswith("^"):
+            u, black = u[:-1], "^" + black
         u, _, vt = u.partition("~")
         vt = vt or "f"
         if u not in UNITS or vt not in VTYPES or len(vt) != 1:
@@ -168,7 +176,7 @@ def parse_op(s):
         return ("s", _nat(f[1]), parse_period(f[2]), [_int(x) for x in _split(f[3], ",")])
     if f[0] == "d" and len(f) == 3:
         return ("d", _nat(f[1]), None if f[2] == "*" else parse_period(f[2]))
-    if f[0] in ("k", "a", "g") and len(f) == 3:
+    if f[0] in ("k", "a", "g", "i") and len(f) == 3:
         return (f[0], _nat(f[1]), parse_period(f[2]))
     if f[0] in ("q", "u") and len(f) == 5 and f[1] in ROUTES and len(f[1]) == 1:
         return (f[0], _nat(f[3]), parse_period(f[4]), f[1], _nat(f[2]))
@@ -226,8 +234,10 @@ def check_run(sysd, spec, events) -> None:
     for e, _, _, formula, _, _ in sysd:
         if e != 0 and e not in ks:
             raise Malformed("entity")
-        for _, _, via, _ in (formula[1] if formula else []):
+        for _, dep, via, _ in (formula[1] if formula else []):
             if isinstance(via, tuple):
+                if via[0] == "eq" and (dep >= len(sysd) or sysd[dep][4] != "e"):
+                    raise Malformed("comparison with a member of a variable that is not an Enum")
                 if via[0] == "hr" and (via[1] not in ks or e != 0):
                     raise Malformed("has_role")
                 if via[0] in ("mr", "nb", "nt") and e == 0:
@@ -273,6 +283,9 @@ def _term_value(population, period, term, names, dep_entity_keys, ents, paramete
         return population.nb_persons(role=role_object(population.entity, via[1]))
     if via[0] == "nt":
         return population.value_nth_person(via[1], population.members(names[dep], p), default=0)
+    if via[0] == "eq":
+        member = list(population.simulation.tax_benefit_system._ofv_enum)[via[1]]
+        return (population(names[dep], p) == member) * 1.0
     return population.has_role(role_object(ents[via[1]], via[2])) * 1.0
 
 
@@ -328,8 +341,11 @@ def make_system(sys_text: str, ks: tuple):
             attrs["default_value"] = default
         if formula is not None:
             attrs["formula"] = _make_formula(formula[0], formula[1], names, dep_keys, ents)
+        if "^" in black:
+            from openfisca_core import holders
+            attrs["set_input"] = holders.set_input_dispatch_by_period
         tbs.add_variable(type(names[i], (variables.Variable,), attrs))
-    black = [names[i] for i, x in enumerate(sysd) if x[5]]
+    black = [names[i] for i, x in enumerate(sysd) if "!" in x[5]]
     if black:
         tbs.cache_blacklist = set(black)
     tbs._ofv_enum = enum
@@ -411,12 +427,18 @@ def show_vec(a, vt="f") -> str:
 
     if a is None:
         return "none"
+    mark = ""
     if vt == "e":
+        # an Enum variable's vector is an EnumArray of the variable's enumeration, wherever it comes from (formula,
+        # input, cache, the store copied into a clone); a bare index array is not the same value: it compares unequal
+        # to every member and cannot be decoded
+        if numpy.ndim(a) > 0 and getattr(getattr(a, "possible_values", None), "__name__", None) != "OfvE":
+            mark = "?bare-indices:"
         a = numpy.asarray(a).view(numpy.ndarray) if hasattr(a, "possible_values") else numpy.asarray(a)
         vt = "i"
     if numpy.ndim(a) == 0:
         return _cell(a, vt)
-    return ",".join(_cell(x, vt) for x in a)
+    return mark + ",".join(_cell(x, vt) for x in a)
 
 
 def make_input(values, vt, style, tbs):
@@ -467,21 +489,41 @@ def apply_op(sim, names, vtypes, op, style=0, tbs=None):
     `style` varies the spelling of the arguments (Period object / period text, list / ndarray / dtype)."""
     import numpy
 
-    name = names[op[1]] if op[0] in "sdkaghqu" and op[1] < len(names) else f"v{op[1]}"
-    vt = vtypes[op[1]] if op[0] in "sdkaghqu" and op[1] < len(vtypes) else "f"
+    name = names[op[1]] if op[0] in "sdkaghqui" and op[1] < len(names) else f"v{op[1]}"
+    vt = vtypes[op[1]] if op[0] in "sdkaghqui" and op[1] < len(vtypes) else "f"
     text = style % 2 == 1
+    via = (style // 7) % 4        # which object the caller addresses: the simulation (twice as often), the holder it
+    #                               hands out, the holder of the population it hands out
     try:
         if op[0] == "s":
-            sim.set_input(name, real_period(op[2], text), make_input(op[3], vt, style // 2, tbs or sim.tax_benefit_system))
+            value = make_input(op[3], vt, style // 2, tbs or sim.tax_benefit_system)
+            if via == 2:
+                sim.get_holder(name).set_input(real_period(op[2], text), value)
+            elif via == 3:
+                sim.get_variable_population(name).get_holder(name).set_input(real_period(op[2], text), value)
+            else:
+                sim.set_input(name, real_period(op[2], text), value)
+            return "ok"
+        if op[0] == "i":
+            sim.invalidate_cache_entry(name, real_period(op[2]))
             return "ok"
         if op[0] == "g":
             count = sim.get_variable_population(name).count
             sim.set_input(name, real_period(op[2], text), numpy.array(["x"] * count))
             return "ok"
         if op[0] == "d":
-            sim.delete_arrays(name, None if op[2] is None else real_period(op[2], text))
+            if via == 2:
+                sim.get_holder(name).delete_arrays(None if op[2] is None else real_period(op[2], text))
+            elif via == 3 and op[2] is None:
+                sim.get_variable_population(name).get_holder(name).delete_arrays()
+            else:
+                sim.delete_arrays(name, None if op[2] is None else real_period(op[2], text))
             return "ok"
         if op[0] == "k":
+            if (style // 11) % 4 == 3 and op[1] < len(names):
+                # no variable here declares a `calculate_output` rule: a plain calculation (an unknown name is refused
+                # before the tracer hears of the request: not the same history as `calculate`)
+                return show_vec(sim.calculate_output(name, real_period(op[2], text)), vt)
             return show_vec(sim.calculate(name, real_period(op[2], text)), vt)
         if op[0] == "a":
             return show_vec(sim.calculate_add(name, real_period(op[2], text)), "f" if vt in "eb" else vt)
@@ -652,10 +694,16 @@ def dispose(*sims) -> None:
     for s in sims:
         if s is None:
             continue
-        for pop in s.populations.values():
-            for h in pop._holders.values():
-                if h._disk_storage is not None:
-                    h._disk_storage.preserve_storage_dir = True
+        # (defensive reads: this runs in a `finally`, and must never mask what the tree under test did — a clone
+        # whose holders lack attributes is a failing input, reported by the code that met it first)
+        for pop in (getattr(s, "populations", None) or {}).values():
+            for h in (getattr(pop, "_holders", None) or {}).values():
+                disk = getattr(h, "_disk_storage", None)
+                if disk is not None:
+                    try:
+                        disk.preserve_storage_dir = True
+                    except Exception:      # noqa: BLE001
+                        pass
     gc.collect()
     for d in dirs:
         shutil.rmtree(d, ignore_errors=True)
